@@ -4,6 +4,7 @@ import (
 	"fmt"
 	"sort"
 	"strings"
+	"time"
 
 	"github.com/golang/protobuf/proto"
 	"github.com/hashicorp/memberlist"
@@ -29,7 +30,11 @@ var (
 	dCur  *dnode
 )
 
-const dBase = int64(1_000_000)
+// dBase: the logical clock starts one hour before the real time at which the process started, rounded to a multiple of
+// a tick: stamps look like production stamps (nanoseconds, in the recent past of the wall clock), so code that compares a
+// stamp with the wall clock (expiry policies, clock-drift guards) sees what it would see in production; offsets of hours
+// then model nodes whose clocks really are hours apart.
+var dBase = (time.Now().Add(-time.Hour).UnixNano() / 1000) * 1000
 
 // dFrozen: the clock keeps returning the same reading (several changes within one clock tick)
 var dFrozen bool
